@@ -59,12 +59,15 @@ impl MurmurHash3X64128 {
     uninterp spec fn digest(&self) -> (u64, u64);
     uninterp spec fn seed_of(&self) -> u64;
     uninterp spec fn fresh(&self) -> bool;
+    // the hasher invariant finish128 needs (unit hash_murmur: a reachable state, fewer than 16 buffered bytes, byte count fits u64)
+    uninterp spec fn fed(&self) -> bool;
     #[verifier::external_body]
     fn with_seed(seed: u64) -> (r: Self)
       ensures r.fresh(), r.seed_of() == seed
     { unimplemented!() }
     #[verifier::external_body]
     fn finish128(&self) -> (r: (u64, u64))
+      requires self.fed()
       ensures r == self.digest()
     { unimplemented!() }
 }
@@ -72,7 +75,7 @@ impl MurmurHash3X64128 {
 #[verifier::external_body]
 fn vx_hash_item<T: Hash>(value: T, hasher: &mut MurmurHash3X64128)
   requires old(hasher).fresh()
-  ensures final(hasher).digest() == murmur128(old(hasher).seed_of(), value)
+  ensures final(hasher).digest() == murmur128(old(hasher).seed_of(), value), final(hasher).fed()   // `write` keeps the hasher invariant (proved in unit hash_murmur)
 { unimplemented!() /* value.hash(hasher) */ }
 
 // R12b: a DOCUMENTED panic ("# Panics: if lg_k is not in the range") is modelled as 'returns only if the condition holds': the
@@ -84,8 +87,7 @@ pub uninterp spec fn seed_hash_spec(seed: u64) -> u16;
 // opaque: contract VERBATIM from the one PROVED in contracts/hash_murmur.rs (panics iff the seed hash is zero)
 #[verifier::external_body]
 fn compute_seed_hash(seed: u64) -> (r: u16)
-  requires seed_hash_spec(seed) != 0,
-  ensures r == seed_hash_spec(seed), r != 0,
+  ensures r == seed_hash_spec(seed), r != 0 && seed_hash_spec(seed) != 0,
 { unimplemented!() }
 
 // Java Double.doubleToLongBits canonicalisation (float leaf)
@@ -283,7 +285,7 @@ impl CpcSketch {
         final(self).windowed() <==> 32 * (final(self).num_coupons as int) >= 3 * final(self).k(),
     { unimplemented!() }
 
-    fn default ( ) -> ( r : Self ) requires seed_hash_spec ( DEFAULT_UPDATE_SEED ) != 0 ensures
+    fn default ( ) -> ( r : Self ) ensures
 /*@C05.new.empty*/ r . fresh ( DEFAULT_LG_K , DEFAULT_UPDATE_SEED ) , r . wf ( ) , r . count_ok ( ) {
 Self :: new ( DEFAULT_LG_K ) }
 
@@ -296,14 +298,14 @@ Self :: new ( DEFAULT_LG_K ) }
         &&& self.kxp == k_as_f64(lg_k) && self.hip_est_accum == 0.0f64
     }
 
-    fn new ( lg_k : u8 ) -> ( r : Self ) requires seed_hash_spec ( DEFAULT_UPDATE_SEED ) != 0 ensures
+    fn new ( lg_k : u8 ) -> ( r : Self ) ensures
 /*@C05.new.lg_k_validated*/ 4 <= lg_k <= 26 ,
 /*@C05.new.empty*/ r . fresh ( lg_k , DEFAULT_UPDATE_SEED ) , r . wf ( ) , r . count_ok ( ) {
 Self :: with_seed ( lg_k , DEFAULT_UPDATE_SEED ) }
 
 
     // the range assert is a documented panic ("Panics if lg_k is not in the range"): R12b, the function returns only for valid lg_k
-    fn with_seed ( lg_k : u8 , seed : u64 ) -> ( r : Self ) requires seed_hash_spec ( seed ) != 0 ensures
+    fn with_seed ( lg_k : u8 , seed : u64 ) -> ( r : Self ) ensures
 /*@C05.with_seed.lg_k_validated*/ 4 <= lg_k <= 26 ,
 /*@C05.new.empty*/ r . fresh ( lg_k , seed ) ,
 /*@C05.new.wf*/ r . wf ( ) ,
